@@ -121,7 +121,7 @@ class sx_float(metaclass=_ShadowMeta):
 
     @staticmethod
     def _proxies():
-        return (_floats().SymFloat,)
+        return (_floats().SymFloat, _floats().OpaqueFloat)
 
     @staticmethod
     def _convert(*a):
